@@ -488,7 +488,91 @@ RULES_BODY = {
 # --------------------------------------------------------------------------- weaving
 
 
-def rule_blockcall(body, argstr, text, fname, rel, qual, counts, info):
+def block_range(lines, d, fname, at_line=None):
+    """line range [a, b] of a `from=`/`to=` block; `fromk=K` takes the K-th line matching `from`; `balanced=1` ends the block where the
+    brackets opened on the `from` line close again (one whole statement) instead of at a `to=` anchor"""
+    frx = d.opt('from')
+    a = at_line if at_line is not None else find_line(lines, frx.lstrip('~'), int(d.opt('fromk', '1')), fname + ' block-from')
+    if d.opt('balanced'):
+        depth = 0
+        started = False
+        for j in range(a, len(lines)):
+            for t in rustlex.code_toks(rustlex.lex(lines[j])):
+                if t.kind == 'p' and t.text in ('(', '[', '{'):
+                    depth += 1; started = True
+                elif t.kind == 'p' and t.text in (')', ']', '}'):
+                    depth -= 1
+            if started and depth == 0:
+                return a, j
+        raise ExtractError('lost anchor: block %s: statement does not close' % fname)
+    trx = d.opt('to')
+    after = lines[a:]
+    b = find_line(after, trx.lstrip('~'), 1, fname + ' block-to') + a + int(d.opt('plus', '0'))
+    return a, b
+
+
+def _clauses_after(spec_txt, kw):
+    """the text of the `kw` section of a spec (up to the next section keyword)"""
+    m = re.search(r'^\s*%s\b' % kw, spec_txt, flags=re.M)
+    if not m:
+        return ''
+    rest = spec_txt[m.end():]
+    m2 = re.search(r'^\s*(requires|ensures|decreases)\b', rest, flags=re.M)
+    return rest[:m2.start()] if m2 else rest
+
+
+def _norm_clause_lines(txt):
+    out = []
+    for l in txt.split('\n'):
+        l = re.sub(r'//.*', '', l).strip().rstrip(',').strip()
+        if l:
+            out.append(re.sub(r'\s+', ' ', l))
+    return out
+
+
+def resolve_pass(d):
+    """A block with `passof=BASE` is a further PROOF PASS over the text of block BASE: same cut, same synthetic head (renamed), same
+    prologue / glue / epilogue and rewrite rules; its own `requires` must be a subset of BASE's (line by line) and its `ensures`
+    are added to the contract every caller of BASE sees. Splitting one contract over passes keeps each SMT query small."""
+    base_name = d.opt('passof')
+    if not base_name:
+        return d
+    base = BLOCKS.get(base_name)
+    if base is None:
+        raise ExtractError('block %s: passof=%s: no such block' % (d.args[2], base_name))
+    nd = Directive('block', [], d.line_no, d.path)
+    keep = [a for a in d.args[3:] if a.split('=')[0] in ('unit', 'props', 'passof')]
+    inherit = [a for a in base.args[3:] if a.split('=')[0] not in ('unit', 'props', 'passof')]
+    nd.args = [base.args[0], base.args[1], d.args[2]] + keep + inherit
+    for (n, a, t) in base.sections:
+        if n == 'head':
+            nd.sections.append((n, a, [re.sub(r'\bfn\s+%s\b' % re.escape(base_name), 'fn ' + d.args[2], l) for l in t]))
+        elif n in ('prologue', 'glue', 'epilogue', 'iterize', 'opaque', 'replace', 'callargs', 'ascribe'):
+            nd.sections.append((n, a, t))
+    for (n, a, t) in d.sections:
+        if n in ('head', 'prologue', 'glue', 'epilogue'):
+            raise ExtractError('block %s: a proof pass inherits its %s from %s' % (d.args[2], n, base_name))
+        nd.sections.append((n, a, t))
+    own_req = _norm_clause_lines(_clauses_after('\n'.join('\n'.join(t) for (n, _, t) in d.sections if n == 'spec'), 'requires'))
+    base_req = set(_norm_clause_lines(_clauses_after('\n'.join('\n'.join(t) for (n, _, t) in base.sections if n == 'spec'), 'requires')))
+    for l in own_req:
+        if l not in base_req:
+            raise ExtractError('block %s: precondition line is not a precondition of %s: %s' % (d.args[2], base_name, l))
+    return nd
+
+
+def pass_ensures(base_name):
+    """ensures clauses proved by the proof passes of a block (added to the stub every caller sees)"""
+    out = []
+    for nm in PASSES.get(base_name, []):
+        d = BLOCKS[nm]
+        spec = '\n'.join('\n'.join(t) for (n, _, t) in d.sections if n == 'spec')
+        out.append('            // proved by pass %s (unit %s)' % (nm, d.opt('unit')))
+        out.append(_clauses_after(spec, 'ensures').rstrip())
+    return '\n'.join(out)
+
+
+def rule_blockcall(body, argstr, text, fname, rel, qual, counts, info, at_line=None):
     """R8c: the body of the loop that a `//@block ... loopbody=` directive proves separately is replaced, in the enclosing
     function, by the call of that block given in the section text. Checked mechanically: the block exists, is cut from this
     very function with a loop-header anchor that is found here, every assignment to an accumulator variable (acc=) inside the
@@ -500,9 +584,16 @@ def rule_blockcall(body, argstr, text, fname, rel, qual, counts, info):
     blk = BLOCKS.get(bname)
     if blk is None:
         raise ExtractError('lost anchor: %s blockcall %s: no such block' % (fname, bname))
-    if blk.args[0] != rel or blk.args[1] != qual or not blk.opt('loopbody'):
-        raise ExtractError('blockcall %s: block is not a loop body of %s' % (bname, qual))
+    if blk.args[0] != rel or blk.args[1] != qual:
+        raise ExtractError('blockcall %s: block is not cut from %s' % (bname, qual))
     lines = body.split('\n')
+    if not blk.opt('loopbody'):
+        # a statement-range block: the range is replaced by the call text
+        a, b = block_range(lines, blk, fname + ' blockcall', at_line)
+        indent = re.match(r'\s*', lines[a]).group(0)
+        counts['R8c'] = counts.get('R8c', 0) + 1
+        info.setdefault('blockcalls', []).append({'block': bname, 'replaced_lines': b - a + 1})
+        return '\n'.join(lines[:a] + [indent + t.strip() for t in text if t.strip()] + lines[b + 1:])
     a = find_line(lines, blk.opt('loopbody').lstrip('~'), 1, fname + ' blockcall-loop')
     head = '\n'.join(lines[:a])
     rest = '\n'.join(lines[a:])
@@ -890,6 +981,10 @@ def fn_after_self(sig, extra):
 
 
 def emit_fn(d, unit, report, canaries):
+    if d.kind == 'block' and d.opt('passof'):
+        if d.opt('unit') != unit:
+            return '', None   # a proof pass is never called: no stub outside its home unit
+        d = resolve_pass(d)
     if d.kind == 'fn':
         rel, qual = d.args[0], d.args[1]
         src, it = locate(rel, 'fn', qual)
@@ -925,10 +1020,7 @@ def emit_fn(d, unit, report, canaries):
             close = _match_brace(rest, pos)
             body = rest[pos + 1:close]
         else:
-            frx = d.opt('from'); trx = d.opt('to')
-            a = find_line(lines, frx.lstrip('~'), 1, fname + ' block-from')
-            after = lines[a:]
-            b = find_line(after, trx.lstrip('~'), 1, fname + ' block-to') + a + int(d.opt('plus', '0'))
+            a, b = block_range(lines, d, fname)
             body = '\n'.join(lines[a:b + 1])
         heads = [t for (n, _, t) in d.sections if n == 'head']
         if not heads:
@@ -948,7 +1040,15 @@ def emit_fn(d, unit, report, canaries):
         for (n, _, t) in d.sections:
             if n == 'epilogue':
                 epi += t
-        body = '\n'.join(pro) + '\n' + body + '\n' + '\n'.join(epi)
+        # glue: parameter passing of the synthetic head (`let mut x = x_in;` - Verus has no `mut` parameters); each line must have that shape
+        glue = []
+        for (n, _, t) in d.sections:
+            if n == 'glue':
+                for l in t:
+                    if l.strip() and not re.match(r'^let mut (\w+) = \1_in;$', l.strip()):
+                        raise ExtractError('block %s: glue line is not `let mut x = x_in;`: %s' % (fname, l.strip()))
+                glue += t
+        body = '\n'.join(pro) + '\n' + '\n'.join(glue) + '\n' + body + '\n' + '\n'.join(epi)
     home = d.opt('unit')
     props = (d.opt('props', '') or '').split(',')
     rules = list(filter(None, (d.opt('rules', '') or '').split(',')))
@@ -986,14 +1086,31 @@ def emit_fn(d, unit, report, canaries):
         out.append('    #[verifier::external_body]')
         out.append(sig.rstrip())
         out.append(spec_txt)
+        if d.kind == 'block' and PASSES.get(fname):
+            if not re.search(r'^\s*ensures\b', spec_txt, flags=re.M):
+                raise ExtractError('block %s has proof passes but no ensures section' % fname)
+            out.append(pass_ensures(fname))
         out.append('    { unimplemented!() }')
         entry['rules'] = counts
         report['fns'].append(entry)
         return '\n'.join(out), None
     # --- body
-    for name, argstr, text in d.sections:
-        if name == 'blockcall':
-            body = rule_blockcall(body, argstr, text, fname, rel, qual, counts, info)
+    # block calls: all ranges are located on the original text, then replaced from the bottom up
+    bcs = [(argstr, text) for name, argstr, text in d.sections if name == 'blockcall']
+    if bcs:
+        orig_lines = body.split('\n')
+        located = []
+        for argstr, text in bcs:
+            blk = BLOCKS.get(argstr.split()[0])
+            if blk is None:
+                raise ExtractError('lost anchor: %s blockcall %s: no such block' % (fname, argstr.split()[0]))
+            if blk.opt('loopbody'):
+                pos = find_line(orig_lines, blk.opt('loopbody').lstrip('~'), 1, fname + ' blockcall-loop')
+            else:
+                pos = block_range(orig_lines, blk, fname + ' blockcall')[0]
+            located.append((pos, argstr, text))
+        for pos, argstr, text in sorted(located, key=lambda x: -x[0]):
+            body = rule_blockcall(body, argstr, text, fname, rel, qual, counts, info, at_line=pos)
     body = strip_statement_macro(body, counts)
     body = rule_time(body, counts)
     if 'R1' in rules:
@@ -1172,6 +1289,7 @@ def count_builtin(body):
 
 
 BLOCKS = {}
+PASSES = {}   # base block -> names of the additional proof passes over the same text
 
 
 def prepass(world_files):
@@ -1182,6 +1300,10 @@ def prepass(world_files):
         for seg in parse_template(wf):
             if not isinstance(seg, str) and seg.kind == 'block':
                 BLOCKS[seg.args[2]] = seg
+    PASSES.clear()
+    for nm, seg in BLOCKS.items():
+        if seg.opt('passof'):
+            PASSES.setdefault(seg.opt('passof'), []).append(nm)
     for wf in world_files:
         for seg in parse_template(wf):
             if isinstance(seg, str):
